@@ -158,4 +158,370 @@ example : SortedBy (fun (x y : Nat) => decide (x < y)) #[1, 3, 5, 5, 7] := by
   rwa [show heapsort (fun (x y : Nat) => decide (x < y)) #[5, 3, 7, 1, 5] = #[1, 3, 5, 5, 7] by
     decide +kernel] at this
 
+/-! ## partition -/
+
+/-- ★ `celeritas::partition` (Hoare style): the result is a permutation of the input, every
+    element before the returned index satisfies the predicate, none from it on does, and the
+    returned index is the number of elements satisfying the predicate (= `std::partition`). -/
+theorem partition_spec (p : α → Bool) (a : Array α) :
+    (partition p a).1.Perm a ∧
+    (partition p a).2 ≤ a.size ∧
+    (∀ i, i < (partition p a).2 → p (partition p a).1[i]! = true) ∧
+    (∀ i, (partition p a).2 ≤ i → i < a.size → p (partition p a).1[i]! = false) ∧
+    (partition p a).2 = a.toList.countP p := by
+  have h := partitionLoop_spec p a (a.size + 1) a 0 a.size (Nat.zero_le _) (Nat.le_refl _)
+    (by omega) (Array.Perm.refl _) (fun i hi => by omega) (fun i h1 h2 => by omega)
+  obtain ⟨h1, h2, h3, h4⟩ := h
+  refine ⟨h1, h2, h3, h4, ?_⟩
+  have hperm : (partition p a).1.toList.Perm a.toList := Array.perm_iff_toList_perm.mp h1
+  rw [← hperm.countP_eq]
+  have hsz : (partition p a).1.size = a.size := h1.size_eq
+  symm
+  apply countP_of_split p _ _ (by simpa [hsz] using h2)
+  · intro i hi hik
+    have := h3 i hik
+    rwa [getElem!_eq_toList _ i (by simpa using hi)] at this
+  · intro i hi hik
+    have := h4 i hik (by simpa [hsz] using hi)
+    rwa [getElem!_eq_toList _ i (by simpa using hi)] at this
+
+example : partition (fun (x : Int) => decide (x < 5)) #[9, 1, 8, 2, 7, 3] = (#[3, 1, 2, 8, 7, 9], 3) := by
+  decide +kernel
+
+/-! ## min_element and predicates -/
+
+/-- ★ `min_element` returns the FIRST minimal index (`std::min_element`): no element is ordered
+    before `a[r]`, and `a[r]` is ordered strictly before every earlier element. -/
+theorem minElement_first_min (lt : α → α → Bool) (h : StrictWeakOrder lt) (a : Array α)
+    (hne : 0 < a.size) :
+    minElement lt a < a.size ∧
+    (∀ i, i < a.size → lt a[i]! a[minElement lt a]! = false) ∧
+    (∀ i, i < minElement lt a → lt a[minElement lt a]! a[i]! = true) := by
+  unfold minElement
+  rw [if_neg (by omega)]
+  apply minElementLoop_spec lt h a 0 1 a.size (by omega) (by omega)
+  · intro i hi
+    have : i = 0 := by omega
+    subst this; exact h.irrefl _
+  · intro i hi; omega
+
+/-- on an empty range `min_element` returns `last` -/
+theorem minElement_empty (lt : α → α → Bool) (a : Array α) (h : a.size = 0) :
+    minElement lt a = a.size := by
+  unfold minElement; rw [if_pos h]
+
+theorem allOf_spec (p : α → Bool) (a : Array α) :
+    allOf p a = true ↔ ∀ i, i < a.size → p a[i]! = true := by
+  unfold allOf; rw [allOfLoop_spec]
+  exact ⟨fun h i hi => h i (Nat.zero_le _) hi, fun h i _ hi => h i hi⟩
+
+theorem anyOf_spec (p : α → Bool) (a : Array α) :
+    anyOf p a = true ↔ ∃ i, i < a.size ∧ p a[i]! = true := by
+  unfold anyOf; rw [anyOfLoop_spec]
+  exact ⟨fun ⟨i, _, h2, h3⟩ => ⟨i, h2, h3⟩, fun ⟨i, h2, h3⟩ => ⟨i, Nat.zero_le _, h2, h3⟩⟩
+
+theorem allAdjacent_spec (p : α → α → Bool) (a : Array α) :
+    allAdjacent p a = true ↔ ∀ i, i + 1 < a.size → p a[i]! a[i + 1]! = true := by
+  unfold allAdjacent
+  split
+  · rename_i h0; simp only [true_iff]; intro i hi; omega
+  · rw [allAdjacentLoop_spec p a a[0]! 1 a.size (by omega) rfl]
+    constructor
+    · intro h i hi
+      have := h (i + 1) (by omega) hi
+      simpa using this
+    · intro h i h1 h2
+      have := h (i - 1) (by omega)
+      have e : i - 1 + 1 = i := by omega
+      rwa [e] at this
+
+example : minElement (fun (x y : Nat) => decide (x < y)) #[4, 2, 8, 2] = 1 := by decide +kernel
+
+/-! ## scalar helpers -/
+
+/-- `clamp(v, lo, hi)` lies in `[lo, hi]` and equals `v` when `v` does (precondition `¬ hi < lo`) -/
+theorem clamp_spec (lt : α → α → Bool) (h : StrictWeakOrder lt) (v lo hi : α)
+    (hpre : lt hi lo = false) :
+    lt (clamp lt v lo hi) lo = false ∧ lt hi (clamp lt v lo hi) = false ∧
+    (lt v lo = false → lt hi v = false → clamp lt v lo hi = v) := by
+  unfold clamp
+  by_cases h1 : lt v lo = true
+  · simp only [h1, ↓reduceIte]
+    exact ⟨h.irrefl _, hpre, fun h' => by simp [h1] at h'⟩
+  · have h1' : lt v lo = false := by simpa using h1
+    simp only [h1', Bool.false_eq_true, ↓reduceIte]
+    by_cases h2 : lt hi v = true
+    · simp only [h2, ↓reduceIte]
+      exact ⟨hpre, h.irrefl _, fun _ h' => by simp [h2] at h'⟩
+    · have h2' : lt hi v = false := by simpa using h2
+      simp only [h2', Bool.false_eq_true, ↓reduceIte]
+      exact ⟨h1', h2', fun _ _ => rfl⟩
+
+/-- ★ `ceil_div(t, b)` is the least `q` with `t ≤ q·b`, i.e. `⌈t / b⌉`, for `b > 0`. -/
+theorem ceilDiv_spec (t b : Nat) (hb : 0 < b) :
+    t ≤ ceilDiv t b * b ∧ (∀ q, t ≤ q * b → ceilDiv t b ≤ q) ∧ ceilDiv t b = (t + b - 1) / b := by
+  refine ⟨ceilDiv_mul_ge t b hb, fun q hq => ceilDiv_minimal t b q hq, ?_⟩
+  apply Nat.le_antisymm
+  · apply ceilDiv_minimal
+    have h1 := Nat.div_add_mod (t + b - 1) b
+    have h2 := Nat.mod_lt (t + b - 1) hb
+    rw [Nat.mul_comm]; omega
+  · have h0 := ceilDiv_mul_ge t b hb
+    apply Nat.div_le_of_le_mul
+    rw [Nat.mul_comm] at h0; omega
+
+/-- `ceil_div` never exceeds its first argument for `b ≥ 1`, so no unsigned wrap can occur -/
+theorem ceilDiv_le (t b : Nat) (hb : 0 < b) : ceilDiv t b ≤ t :=
+  ceilDiv_minimal t b t (Nat.le_mul_of_pos_right t hb)
+
+/-- `LocalWorkCalculator`: the local work of all workers adds up to the total work -/
+theorem localWork_sum (total workers : Nat) (hw : 0 < workers) :
+    localWorkSum total workers workers = total := by
+  rw [localWorkSum_eq total workers workers (Nat.le_refl _)]
+  have h1 := Nat.div_add_mod total workers
+  have h2 := Nat.mod_lt total hw
+  rw [Nat.min_eq_right (by omega)]; omega
+
+/-- `ipow<N>(v) = v^N` on integers -/
+theorem ipow_int (n : Nat) (v : Int) : ipow (· * ·) 1 n v = v ^ n := ipow_eq_pow_int n v
+
+/-- `ipow<N>(v)` on `unsigned long long` (every product wraps) is `v^N mod 2^64` -/
+theorem ipow_u64 (n v : Nat) : ipowU64 n v = v ^ n % 2 ^ 64 := ipow_mod (2 ^ 64) n v
+
+example : ceilDiv 7 2 = 4 ∧ ceilDiv 8 2 = 4 ∧ ipowU64 64 3 = 8733086111712066817 := by
+  decide +kernel
+
+/-! ## Range / Count -/
+
+/-- ★ `range(b, e).step(s)` for `s > 0` enumerates exactly `b, b+s, b+2s, …` while `< e`
+    (`n` = number of such values; no overflow: values are mathematical integers). -/
+theorem range_step_enumerates (b e s : Int) (hs : 0 < s) (n fuel : Nat) (hf : n ≤ fuel)
+    (hin : ∀ k : Nat, k < n → b + k * s < e) (hout : e ≤ b + n * s) :
+    stepRangeSigned fuel b e s = (List.range n).map (fun k : Nat => b + k * s) := by
+  unfold stepRangeSigned
+  rw [if_neg (by omega)]
+  exact stepIter_nonneg e s (by omega) n fuel b hf hin (by omega)
+
+/-- ★ `range(b, e).step(s)` for `s < 0` enumerates exactly `e+s, e+2s, …` while `≥ b`, as written
+    (it starts at `e+s`, not at `e-1`: for `|s| ∤ e-b` it is not the reversed forward range). -/
+theorem range_negstep_enumerates (b e s : Int) (hs : s < 0) (n fuel : Nat) (hf : n ≤ fuel)
+    (hin : ∀ k : Nat, k < n → b ≤ e + (k + 1) * s) (hout : e + (n + 1) * s < b) :
+    stepRangeSigned fuel b e s = (List.range n).map (fun k : Nat => e + (k + 1) * s) := by
+  unfold stepRangeSigned
+  rw [if_pos hs]
+  rw [stepIter_neg b s hs n fuel (e + s) hf
+    (fun k hk => by have := hin k hk; rw [Int.add_mul] at this; omega)
+    (by rw [Int.add_mul] at hout; omega)]
+  apply List.map_congr_left
+  intro k _
+  rw [Int.add_mul]; omega
+
+/-- `count(b).step(s)` enumerates `b, b+s, b+2s, …` -/
+theorem count_step_enumerates (b s : Int) (n : Nat) :
+    countStep b s n = (List.range n).map (fun k : Nat => b + k * s) := countStep_eq b s n
+
+/-- `range(b, e)` with `b ≤ e` enumerates `b, b+1, …, e-1` -/
+theorem range_enumerates (b e : Int) (hbe : b ≤ e) (fuel : Nat) (hf : (e - b).toNat ≤ fuel) :
+    unitIter e fuel b = (List.range (e - b).toNat).map (fun k : Nat => b + k) :=
+  unitIter_eq e (e - b).toNat fuel b hf (by omega)
+
+example : stepRangeSigned 65 0 10 3 = [0, 3, 6, 9] ∧ stepRangeSigned 65 0 10 (-3) = [7, 4, 1]
+    ∧ stepRangeSigned 65 0 6 (-2) = [4, 2, 0] := by decide +kernel
+
+/-! ## indexers -/
+
+/-- ★ `HyperslabInverseIndexer ∘ HyperslabIndexer = id` on the box `coords[i] < dims[i]`, and the
+    flat index lies in `[0, hyperslab_size)` (so below `2^32` whenever the size is). -/
+theorem hyperslab_inverse_index (dims coords : Array Nat) (hn : 1 ≤ dims.size)
+    (hsz : coords.size = dims.size) (hc : ∀ i, i < dims.size → coords[i]! < dims[i]!) :
+    hyperslabIndex dims coords < hyperslabSize dims ∧
+    hyperslabInverse dims (hyperslabIndex dims coords) = coords := by
+  rw [hyperslabIndex_eq dims coords hn, hyperslabSize_eq]
+  constructor
+  · have := hslabG_lt dims coords (dims.size - 1) (fun j hj => hc j (by omega))
+    have e : dims.size - 1 + 1 = dims.size := by omega
+    rwa [e] at this
+  · unfold hyperslabInverse
+    obtain ⟨h1, h2⟩ := hyperslabInvLoop_of_index dims coords (dims.size - 1)
+      (Array.replicate dims.size 0) (by simp; omega) (fun j _ hj => hc j (by omega))
+    apply Array.ext
+    · rw [h1]; simp [hsz]
+    · intro k hk1 hk2
+      have := h2 k
+      rw [if_pos (by omega), getElem!_pos _ k hk1, getElem!_pos _ k hk2] at this
+      exact this
+
+/-- ★ `HyperslabIndexer ∘ HyperslabInverseIndexer = id` on `[0, hyperslab_size)`, and the
+    coordinates lie in the box.  Together with `hyperslab_inverse_index`: mutually inverse
+    bijections between the box and `[0, ∏ dims)`. -/
+theorem hyperslab_index_inverse (dims : Array Nat) (hn : 1 ≤ dims.size)
+    (hpos : ∀ i, i < dims.size → 0 < dims[i]!) (index : Nat) (hi : index < hyperslabSize dims) :
+    (hyperslabInverse dims index).size = dims.size ∧
+    (∀ i, i < dims.size → (hyperslabInverse dims index)[i]! < dims[i]!) ∧
+    hyperslabIndex dims (hyperslabInverse dims index) = index := by
+  rw [hyperslabIndex_eq dims _ hn]
+  unfold hyperslabInverse
+  obtain ⟨h1, h2, h3, h4⟩ := hyperslabInvLoop_index dims (dims.size - 1)
+    (Array.replicate dims.size 0) index (by simp; omega)
+  refine ⟨by rw [h1]; simp, ?_, h2⟩
+  intro i hi'
+  by_cases h0 : i = 0
+  · subst h0
+    rcases Nat.lt_or_ge (hyperslabInvLoop dims (dims.size - 1) (Array.replicate dims.size 0) index)[0]!
+      dims[0]! with h | h
+    · exact h
+    · have := hslabG_ge dims _ (dims.size - 1) h
+      rw [h2] at this
+      have e : dims.size - 1 + 1 = dims.size := by omega
+      rw [e, ← hyperslabSize_eq] at this
+      omega
+  · exact h4 i (by omega) (by omega) (hpos i hi')
+
+example : hyperslabIndex #[2, 3, 4] #[1, 2, 3] = 23 ∧ hyperslabInverse #[2, 3, 4] 23 = #[1, 2, 3]
+    ∧ hyperslabSize #[2, 3, 4] = 24 := by decide +kernel
+
+/-- ★ `RaggedRightInverseIndexer ∘ RaggedRightIndexer = id`: for offsets built by `from_sizes`,
+    a valid pair `(i, j)`, `j < sizes[i]`, maps to a flat index below the total size and back. -/
+theorem ragged_inverse_index (sizes : Array Nat) (i j : Nat) (hi : i < sizes.size)
+    (hj : j < sizes[i]!) :
+    raggedIndex (raggedOffsets sizes) i j < (raggedOffsets sizes)[sizes.size]! ∧
+    raggedInverse (raggedOffsets sizes) (raggedIndex (raggedOffsets sizes) i j) = (i, j) := by
+  obtain ⟨hsz, hoff⟩ := raggedOffsets_spec sizes
+  have hidx : raggedIndex (raggedOffsets sizes) i j = prefixSum sizes i + j := by
+    unfold raggedIndex; rw [hoff i (by omega)]
+  have hnext : prefixSum sizes (i + 1) = sizes[i]! + prefixSum sizes i := rfl
+  have hmono := prefixSum_mono sizes (i + 1) sizes.size (by omega)
+  have htot : prefixSum sizes i + j < (raggedOffsets sizes)[sizes.size]! := by
+    rw [hoff _ (Nat.le_refl _)]; omega
+  refine ⟨by rw [hidx]; exact htot, ?_⟩
+  rw [hidx]
+  unfold raggedInverse
+  obtain ⟨r1, r2, r3, r4⟩ := raggedInvLoop_spec (raggedOffsets sizes) sizes.size
+    (prefixSum sizes i + j) (raggedOffsets sizes).size 0 (by omega) (by omega)
+    (by rw [hoff 0 (Nat.zero_le _)]; simp [prefixSum]) htot
+  generalize raggedInvLoop (raggedOffsets sizes) (prefixSum sizes i + j)
+    (raggedOffsets sizes).size 0 = r at *
+  rw [hoff r (by omega)] at r3
+  rw [hoff (r + 1) (by omega)] at r4
+  have hri : r = i := by
+    rcases Nat.lt_trichotomy r i with h | h | h
+    · have := prefixSum_mono sizes (r + 1) i (by omega); omega
+    · exact h
+    · have := prefixSum_mono sizes (i + 1) r (by omega); omega
+  subst hri
+  simp only [Prod.mk.injEq, true_and]
+  rw [hoff r (by omega)]; omega
+
+/-- ★ `RaggedRightIndexer ∘ RaggedRightInverseIndexer = id` on `[0, total)`, and the pair is
+    valid.  Together with `ragged_inverse_index`: a bijection between valid pairs and flat indices. -/
+theorem ragged_index_inverse (sizes : Array Nat) (index : Nat)
+    (hidx : index < (raggedOffsets sizes)[sizes.size]!) :
+    (raggedInverse (raggedOffsets sizes) index).1 < sizes.size ∧
+    (raggedInverse (raggedOffsets sizes) index).2 <
+      sizes[(raggedInverse (raggedOffsets sizes) index).1]! ∧
+    raggedIndex (raggedOffsets sizes) (raggedInverse (raggedOffsets sizes) index).1
+      (raggedInverse (raggedOffsets sizes) index).2 = index := by
+  obtain ⟨hsz, hoff⟩ := raggedOffsets_spec sizes
+  have hN : 0 < sizes.size := by
+    rcases Nat.eq_zero_or_pos sizes.size with h | h
+    · rw [h, hoff 0 (Nat.zero_le _)] at hidx; simp [prefixSum] at hidx
+    · exact h
+  unfold raggedInverse raggedIndex
+  obtain ⟨r1, r2, r3, r4⟩ := raggedInvLoop_spec (raggedOffsets sizes) sizes.size index
+    (raggedOffsets sizes).size 0 hN (by omega)
+    (by rw [hoff 0 (Nat.zero_le _)]; simp [prefixSum]) hidx
+  generalize raggedInvLoop (raggedOffsets sizes) index (raggedOffsets sizes).size 0 = r at *
+  simp only
+  have h4 := r4
+  rw [hoff (r + 1) (by omega)] at h4
+  have hnext : prefixSum sizes (r + 1) = sizes[r]! + prefixSum sizes r := rfl
+  have h3 := r3
+  rw [hoff r (by omega)] at h3
+  refine ⟨r2, ?_, by omega⟩
+  rw [hoff r (by omega)]; omega
+
+example : raggedOffsets #[2, 3, 1] = #[0, 2, 5, 6] ∧ raggedIndex #[0, 2, 5, 6] 1 2 = 4
+    ∧ raggedInverse #[0, 2, 5, 6] 4 = (1, 2) := by decide +kernel
+
+/-! ## NonuniformGrid::find (index logic) -/
+
+/-- ★ `NonuniformGrid::find` brackets the value: for a sorted grid (duplicates allowed) over a
+    strict total order (`ne` is disagreement of the order), `size ≥ 2`, `front ≤ v < back`:
+    the result `r` satisfies `r + 1 < size` (so FindInterp's upper neighbour exists),
+    `a[r] ≤ v ≤ a[r+1]`; off a grid point `a[r] < v < a[r+1]`; on a grid point `r` is the first
+    index holding `v`. -/
+theorem nonuniformFind_bracket (lt ne : α → α → Bool) (h : StrictWeakOrder lt)
+    (hne : ∀ x y, ne x y = (lt x y || lt y x)) (a : Array α) (hs : SortedBy lt a)
+    (hsz : 2 ≤ a.size) (v : α) (hfront : lt v a[0]! = false) (hback : lt v a[a.size - 1]! = true) :
+    nonuniformFind lt ne a v + 1 < a.size ∧
+    lt v a[nonuniformFind lt ne a v]! = false ∧
+    lt a[nonuniformFind lt ne a v + 1]! v = false ∧
+    (ne v a[nonuniformFind lt ne a v]! = true →
+      lt a[nonuniformFind lt ne a v]! v = true ∧ lt v a[nonuniformFind lt ne a v + 1]! = true) ∧
+    (ne v a[nonuniformFind lt ne a v]! = false →
+      ∀ i, i < nonuniformFind lt ne a v → lt a[i]! v = true) := by
+  obtain ⟨hp1, _⟩ := sorted_partitioned lt h a hs v
+  obtain ⟨b1, b2, b3⟩ := lowerBound_spec lt a v hp1
+  have hlb : lowerBound lt a v < a.size := by
+    rcases Nat.lt_or_ge (lowerBound lt a v) a.size with h' | h'
+    · exact h'
+    · have := b2 (a.size - 1) (by omega)
+      rw [h.asymm hback] at this; cases this
+  unfold nonuniformFind
+  simp only
+  by_cases hn : ne v a[lowerBound lt a v]! = true
+  · rw [if_pos hn]
+    have hor := hn
+    rw [hne] at hor
+    simp only [Bool.or_eq_true] at hor
+    have hvl : lt v a[lowerBound lt a v]! = true := by
+      rcases hor with h' | h'
+      · exact h'
+      · rw [b3 _ (Nat.le_refl _) hlb] at h'; cases h'
+    have hpos : 0 < lowerBound lt a v := by
+      rcases Nat.eq_zero_or_pos (lowerBound lt a v) with h0 | h0
+      · rw [h0, hfront] at hvl; cases hvl
+      · exact h0
+    have e : lowerBound lt a v - 1 + 1 = lowerBound lt a v := by omega
+    have hprev := b2 (lowerBound lt a v - 1) (by omega)
+    rw [e]
+    refine ⟨hlb, h.asymm hprev, h.asymm hvl, fun _ => ⟨hprev, hvl⟩, ?_⟩
+    intro hcontra
+    rw [hne, hprev] at hcontra; simp at hcontra
+  · have hn' : ne v a[lowerBound lt a v]! = false := by simpa using hn
+    rw [if_neg hn]
+    have hboth := hn'
+    rw [hne] at hboth
+    simp only [Bool.or_eq_false_iff] at hboth
+    have hlt2 : lowerBound lt a v + 1 < a.size := by
+      rcases Nat.lt_or_ge (lowerBound lt a v + 1) a.size with h' | h'
+      · exact h'
+      · have e : lowerBound lt a v = a.size - 1 := by omega
+        rw [e, hback] at hboth; cases hboth.1
+    refine ⟨hlt2, hboth.1, b3 _ (by omega) hlt2, fun hc => ?_, fun _ => b2⟩
+    rw [hn'] at hc; cases hc
+
+/-- on a strictly increasing grid the upper inequality is strict: `a[r] ≤ v < a[r+1]` -/
+theorem nonuniformFind_strict (lt ne : α → α → Bool) (h : StrictWeakOrder lt)
+    (hne : ∀ x y, ne x y = (lt x y || lt y x)) (a : Array α)
+    (hinc : ∀ i j, i < j → j < a.size → lt a[i]! a[j]! = true)
+    (hsz : 2 ≤ a.size) (v : α) (hfront : lt v a[0]! = false) (hback : lt v a[a.size - 1]! = true) :
+    lt v a[nonuniformFind lt ne a v]! = false ∧ lt v a[nonuniformFind lt ne a v + 1]! = true := by
+  have hs : SortedBy lt a := fun i j hij hj => h.asymm (hinc i j hij hj)
+  obtain ⟨r1, r2, r3, r4, r5⟩ := nonuniformFind_bracket lt ne h hne a hs hsz v hfront hback
+  refine ⟨r2, ?_⟩
+  by_cases hn : ne v a[nonuniformFind lt ne a v]! = true
+  · exact (r4 hn).2
+  · have hn' : ne v a[nonuniformFind lt ne a v]! = false := by simpa using hn
+    rw [hne] at hn'
+    simp only [Bool.or_eq_false_iff] at hn'
+    exact h.lt_of_le_of_lt hn'.2 (hinc _ _ (Nat.lt_succ_self _) r1)
+
+example : nonuniformFind (fun (x y : Int) => decide (x < y)) (fun x y => x != y) #[0, 1, 3, 3, 7] 3 = 2
+    ∧ nonuniformFind (fun (x y : Int) => decide (x < y)) (fun x y => x != y) #[0, 1, 3, 3, 7] 4 = 3
+    ∧ nonuniformFind (fun (x y : Int) => decide (x < y)) (fun x y => x != y) #[0, 1, 3, 3, 7] 2 = 1 := by
+  decide +kernel
+example : ∀ x y : Int, (x != y) = (decide (x < y) || decide (y < x)) := by
+  intro x y; by_cases h : x = y <;> simp [h]; omega
+
 end CelerVerif.Algo
